@@ -1,13 +1,27 @@
 import Exetera.Model.Basic
 import Exetera.Gen.KernelShape
+import Exetera.Gen.KernelPaths
 import Exetera.Lemmas.NoOob
-/-! C10 — shared vocabulary of the per-family files: the look-up into the regenerated kernel table. -/
+/-! C10 — shared vocabulary of the per-family files: the look-ups into the regenerated kernel tables (`Gen.kernelShape`: loop
+    guards and subscripts; `Gen.kernelPaths`: the path condition of every subscript occurrence). -/
 namespace Exetera.Props.C10
 open Exetera
 
 /-- the entry of the regenerated table `Gen.kernelShape` for the compiled kernel `name` -/
 def lookup (name : String) : Option (String × List String × List String) :=
   Gen.kernelShape.find? (fun k => k.1 == name)
+
+/-- the entry of the regenerated table `Gen.kernelPaths` for the compiled kernel `name`: every subscript occurrence with the
+    tests that dominate it -/
+def lookupPaths (name : String) : Option (String × List (String × List String)) :=
+  Gen.kernelPaths.find? (fun k => k.1 == name)
+
+/-- the two regenerated tables speak about the same kernels, in the same order, and about the same subscripts: the sites
+    that carry a path condition in `Gen.kernelPaths` are, kernel by kernel, exactly the subscripts of `Gen.kernelShape` (no
+    subscript of the source is without a path condition, none is invented) -/
+theorem kernel_paths_sites_match_shape :
+    Gen.kernelPaths.map (fun k => (k.1, (k.2.map (·.1)).eraseDups)) = Gen.kernelShape.map (fun k => (k.1, k.2.2)) := by
+  decide +kernel
 
 /-- a checked write `xs[i] = v` is refused exactly when `i` is not below the array's length -/
 theorem setE_oob_iff {α} (xs : List α) (i : Nat) (v : α) (site : String) :
